@@ -455,6 +455,9 @@ func jsonish(t *T) string {
 	case KBool:
 		return fmt.Sprint(t.B)
 	case KInt:
+		if t.Uns {
+			return "uint64(" + t.intText() + ")"
+		}
 		return fmt.Sprintf("int(%d)", t.I)
 	case KFlt:
 		s, _ := fltText(t.F)
